@@ -198,7 +198,16 @@ pub fn tpm2<const P: u8>(with_log: bool, twice_guard: bool) {
         t.set_log_area(laml, lasa);
         e.zeros(12).u32(laml).u64(lasa);
     }
-    let _ = twice_guard;
+    if twice_guard {
+        // a second set_log_area: the crate may refuse it (panic) or perform it; if it returns, the
+        // image must describe the second log area and still satisfy the selected property
+        let laml2: u32 = kani::any();
+        let lasa2: u64 = kani::any();
+        kani::cover!(true, "CALLING");
+        t.set_log_area(laml2, lasa2);
+        e.n -= 12;
+        e.u32(laml2).u64(lasa2);
+    }
     let r: Rec<80> = Rec::of(&t);
     fixed_verdicts::<P, 80>(&r, &e);
     kani::cover!(true, "REACHED");
